@@ -942,3 +942,56 @@ def tail_post(prop):
 
 def tail_unit(prop):
     return Unit(f'{prop}.snapshot_tail', REPO_PY, 'Repository.snapshot', tail_setup, tail_post(prop), stmt=tail_start, prop=prop)
+
+
+# ------------------------------------------------------------------ snapshot(): worker barrier, failure path, then the tail
+def run_start(stmt):
+    return isinstance(stmt, _ast.With)
+
+
+def run_setup(b):
+    tail_setup(b)
+    me = b.me
+    CORO = models.opaque_type('Coroutine')
+    b.bind('_worker', Model('_worker', lambda i, s, a, k: iter([(s, sym.fresh(CORO, 'worker'))])))
+    b.bind('finished_tracker', CM('tqdm'))
+    b.bind('bytes_tracker', CM('tqdm'))
+
+    def gather(interp, st, args, kwargs):
+        bad = st.copy()
+        bad.emit('gather_failed')
+        yield bad, Raised(Exc('AnyError'))
+        st.emit('gather_ok')
+        yield st, None
+
+    b.bind('asyncio', Obj('asyncio', gather=Model('asyncio.gather', gather)))
+    b.bind('abort', Obj('abort', set=Model('abort.set', lambda i, s, a, k: (s.emit('abort_set'), iter([(s, None)]))[1])))
+    AW = models.opaque_type('Awaitable')
+    b.bind('chunk_producer', sym.fresh(AW, 'chunk_producer'))
+    # `await chunk_producer`: the executor future may re-raise the producer's exception
+    b.await_hook = True
+
+
+def run_post(prop):
+    def post(res):
+        n_fail = n_ok = 0
+        for p in res.paths:
+            kinds = [e.kind for e in p.st.events]
+            ups = p.events('upload')
+            if 'gather_failed' in kinds:
+                n_fail += 1
+                # C03.snapshot.no_upload_after_failure: a failed worker aborts the producer and nothing is uploaded
+                res.oblige(p, f'{prop}.run.failure_propagates_without_snapshot_upload', z3.BoolVal(
+                    p.kind == 'raise' and not ups and 'abort_set' in kinds))
+            elif 'gather_ok' in kinds:
+                n_ok += 1
+                # the snapshot object is uploaded only after ALL workers returned (C02.snapshot.refs_exist, C03.prefix_safe)
+                for e in ups:
+                    res.oblige(p.pc_at(e), f'{prop}.run.snapshot_upload_after_worker_barrier', z3.BoolVal(
+                        kinds.index('gather_ok') < kinds.index('upload') and len(ups) == 1))
+        res.oblige([], f'{prop}.run.paths_checked', z3.BoolVal(n_fail >= 1 and n_ok >= 1))
+    return post
+
+
+def run_unit(prop):
+    return Unit(f'{prop}.snapshot_run', REPO_PY, 'Repository.snapshot', run_setup, run_post(prop), stmt=run_start, prop=prop)
